@@ -550,3 +550,40 @@ Proof. induction fuel as [|f IH]; intros ss Hf; [lia|]. cbn [rename_go]. unfold 
     apply quoted_nf. Qed.
 Lemma rename_nf t : rename_b t <> OutOfFuel.
 Proof. apply rename_go_fuel. lia. Qed.
+
+(* ================= the i32 depth of find_top_level_comma: explicit bound ================= *)
+
+Lemma comma_top_chk_exact : forall s d,
+  (Z.abs d + Z.of_nat (List.length s) <= 2147483647)%Z -> comma_top_chk d s = Ok (comma_top d s).
+Proof. induction s as [|b s IH]; intros d H; [reflexivity|]. cbn [comma_top_chk comma_top].
+  change (List.length (b :: s)) with (S (List.length s)) in H. rewrite Nat2Z.inj_succ in H.
+  assert (Hup : i32_ok (d + 1) = true) by (unfold i32_ok; apply andb_true_iff; split; apply Z.leb_le; lia).
+  assert (Hdn : i32_ok (d - 1) = true) by (unfold i32_ok; apply andb_true_iff; split; apply Z.leb_le; lia).
+  destruct (opens b); [rewrite Hup, IH by lia; reflexivity|].
+  destruct (closes b); [rewrite Hdn, IH by lia; reflexivity|].
+  destruct (Ascii.eqb b "," && (d =? 0)%Z); [reflexivity|]. rewrite IH by lia. reflexivity. Qed.
+
+(* ================= indexing of syn sequences in the AST walkers: every index is guarded ================= *)
+
+Lemma index_safe {A} (l : list A) i : i < List.length l -> safe (index_b l i).
+Proof. intros H. unfold index_b. destruct (nth_error l i) eqn:E; [exact I|]. apply nth_error_None in E. lia. Qed.
+Lemma emit_select_safe {A} (emit_to : bool) (args : list A) : safe (emit_select emit_to args).
+Proof. unfold emit_select. destruct emit_to.
+  - destruct (3 <=? List.length args)%nat eqn:E; [|exact I]. apply Nat.leb_le in E.
+    apply safe_bind; [apply index_safe; lia|]. intros n _. apply safe_bind; [apply index_safe; lia|]. intros; exact I.
+  - destruct (2 <=? List.length args)%nat eqn:E; [|exact I]. apply Nat.leb_le in E.
+    apply safe_bind; [apply index_safe; lia|]. intros n _. apply safe_bind; [apply index_safe; lia|]. intros; exact I. Qed.
+Lemma attr_is_command_safe lc segs : safe (attr_is_command_b lc segs).
+Proof. unfold attr_is_command_b. apply safe_bind; [|intros; exact I].
+  destruct (List.length segs =? 2)%nat eqn:E; [|exact I]. apply Nat.eqb_eq in E.
+  apply safe_bind; [apply index_safe; lia|]. intros s0 _. destruct (str_eqb s0 (L "tauri")); [|exact I].
+  apply safe_bind; [apply index_safe; lia|]. intros; exact I. Qed.
+Lemma tauri_param_safe segs : safe (tauri_param_plain_b segs).
+Proof. unfold tauri_param_plain_b. apply safe_bind; [|intros [b|] _; exact I].
+  destruct (2 <=? List.length segs)%nat eqn:E; [|exact I]. apply Nat.leb_le in E.
+  apply safe_bind; [apply index_safe; lia|]. intros s0 _. destruct (str_eqb s0 (L "tauri")); [|exact I].
+  destruct (List.length segs =? 2)%nat eqn:E2.
+  { apply safe_bind; [apply index_safe; lia|]. intros; exact I. }
+  destruct (List.length segs =? 3)%nat eqn:E3; [|exact I]. apply Nat.eqb_eq in E3.
+  apply safe_bind; [apply index_safe; lia|]. intros s1 _. destruct (str_eqb s1 (L "ipc")); [|exact I].
+  apply safe_bind; [apply index_safe; lia|]. intros; exact I. Qed.
